@@ -426,6 +426,7 @@ func evalGen(r *rand.Rand, tier string, n int) []*wire.Case {
 		"let z = 0.0; if z / z <= 0.5 { print(1); } else { print(2); } while z / z >= 0 { print(3); break; }")
 	add("d-number-spellings", "print(010); print(08); print(0100); print(-012); print(007); print(010 + 1); print(08 / 2); print(010.5); print(9223372036854775808); print(99999999999999999999 + 1);")
 	add("d-number-text", "print(1000000.0); print(1000.0 * 1000); print(0.00001); print(1.0 / 3000000); print(123456789.5 * 1000000000000.0); print(1000000 * 1000000); print(21000000.0 / 2); print(0.0001); print(0.00009);")
+	add("d-print-values", "print(print); print(rand); print(fn () { return 1; }); fn f(a) { return a; } print(f); print(attack(First)); print(skill(LowestHP)); print(ult(LowestHPRatio)); print(null); print(\"a b\"); let g = f; print(g); print(type); print(f(print));")
 	add("d-compare", "print(1 < 2); print(2 <= 2); print(3 > 4); print(1 == 1.0); print(1 != 2); print(1 <> 1); print(2 && 0); print(0 || 0.0); print(0 || \"s\" == 1);")
 	add("d-errors", "print(1 / 0);", "print(1.0 / 0);", "print(\"a\" + 1);", "print(nope);", "fn f(a) { return a; } print(f());", "let a = 1; let a = 2;", "print(5 / (2 - 2));", "print(type(1)); print(type(\"s\")); print(type(null)); print(type([1])); print(type(print)); print(type(fn(){ return 1; }));")
 	add("d-fn-args", "let a = 1; let b = 2; fn second(b, a) { return a; } print(second(a, b)); print(second(b, a));",
